@@ -1,10 +1,16 @@
 import STProofs.CubicKKT
 import STProofs.Hermite
+import STProofs.TimeForms
+import STProofs.QuinticUnique
+import STProofs.SepticUnique
 /-!
 # C01 — interpolation, boundary states (property theorems)
 
 Cubic: `cubic_build_spec` (every N ≥ 1, every positive duration vector, unconditional: all pivots are proved
-positive).  Quintic / septic interpolation and boundary states: see `STProofs.Hermite` (closure identities).
+positive).  Quintic / septic interpolation and boundary states: `quintic_build_hermite`, `septic_build_hermite` (closure
+identities; the solvability side condition is discharged by the pivot theorems `QuinticPiv/SepticPiv.detOK_of_pos`).
+Time specification: `buildNDtp_cumulative` (absolute time points ≡ durations + start time), `cumulative_last`,
+`cumulative_length` (knot-time bookkeeping).
 -/
 open ST ST.Cubic
 
